@@ -713,6 +713,59 @@ func ruleWSpace(c *engine.Context) *report.Rule {
 			r.Sample("`%s`: %d occurrence(s), blanks accepted %s", pol.tok, found, pol.what)
 		}
 	}
+	// separated lists: `E (S E)* !X` — the closing lookahead decides whether the list alternative is
+	// committed; it must look for the separator exactly as the list itself does (blanks included)
+	var lists func(rule string, e peg.Expr)
+	lists = func(rule string, e peg.Expr) {
+		switch x := e.(type) {
+		case *peg.Seq:
+			var items []peg.Expr
+			for _, it := range x.Items {
+				if _, isA := it.(*peg.Action); !isA {
+					items = append(items, it)
+				}
+			}
+			for i := 0; i+1 < len(items); i++ {
+				st, ok1 := items[i].(*peg.Star)
+				nt, ok2 := items[i+1].(*peg.Not)
+				if !ok1 || !ok2 {
+					continue
+				}
+				in, ok := peg.Normalize(st.E).(*peg.Seq)
+				if !ok || len(in.Items) < 2 {
+					continue
+				}
+				sepE := in.Items[0]
+				if !(isSpace(sepE) || startsSp(sepE, 0)) {
+					continue
+				}
+				r.Instances++
+				same := peg.Normalize(nt.E).String() == peg.Normalize(sepE).String()
+				r.Oblige(same)
+				r.Sample("rule %s: list separated by %s closes with !%s: %v", rule, sepE.String(), nt.E.String(), same)
+				if !same {
+					r.Violation(fmt.Sprintf("closing lookahead of the separated list in rule %s", rule), m.pegPos,
+						"the list in rule %s is separated by %s (blanks allowed before the separator) but its closing lookahead is !%s: with a blank before the separator the lookahead does not see it, the list alternative commits early and spellings that differ only in insignificant spaces are no longer equivalent", rule, sepE.String(), nt.E.String())
+				}
+			}
+			for _, it := range x.Items {
+				lists(rule, it)
+			}
+		case *peg.Choice:
+			for _, a := range x.Alts {
+				lists(rule, a)
+			}
+		case *peg.Capture:
+			lists(rule, x.E)
+		case *peg.Star:
+			lists(rule, x.E)
+		case *peg.Opt:
+			lists(rule, x.E)
+		}
+	}
+	for _, sr := range m.run.Rules {
+		lists(sr.Name, peg.Normalize(sr.E))
+	}
 	// around a whole path: every rule of the shape `space X continued` — the path rules — starts with blanks and ends with blanks
 	paths := 0
 	for _, sr := range m.run.Rules {
